@@ -3,6 +3,7 @@ import UberjobModel.Lemmas.EngineExamples
 import UberjobModel.Lemmas.Retry
 import UberjobModel.Lemmas.EngineComplete
 import UberjobModel.Lemmas.EnginePath
+import UberjobModel.Lemmas.EngineQ
 /-!
 # C10 — run limits: max_workers and max_errors (engine part)
 
@@ -64,6 +65,17 @@ theorem C10_parallel_begin {g : Graph} {cfg : Cfg} {s : St} {w x : Nat}
   simp [setW, hlt]
 
 example : (run? diamond ⟨2, some 0⟩ (init diamond) (diamondRun.take 12)).map runningCount = some 2 := by decide
+
+open Uberjob.EngineQ in
+/-- `C10_parallel` for threads that SLEEP when they find nothing to do (`Model/EngineQ.lean`): a sleeping worker cannot take
+    anything, but in every reachable state at least `min (queued items) (idle workers)` idle workers are awake (never went to
+    sleep, or have been notified), and each of them can take any queued item at once.  So the single `notify()` per `put`
+    never leaves a ready item waiting for a worker that sleeps on. -/
+theorem C10_parallel_awake {g : Graph} {cfg : Cfg} {s : StQ} (hr : ReachQ g cfg s) :
+    ∃ l : List Nat, l.Nodup ∧ min s.c.queue.length (s.c.ws.countP W.isIdle) ≤ l.length ∧
+      ∀ w ∈ l, s.c.ws[w]? = some W.idle ∧ w ∉ s.sleep ∧ ∀ i ∈ s.c.queue, (stepQ? g cfg s (.getTake w i)).isSome := by
+  obtain ⟨l, hn, hl, hlen⟩ := q_parallel hr
+  exact ⟨l, hn, hlen, fun w hw => ⟨(hl w hw).1, (hl w hw).2, fun i hi => getTake_enabled (hl w hw).1 (hl w hw).2 hi⟩⟩
 
 /-- **Everything that is allowed to run does run.**  If the run returned without interrupt and the error limit was
     not exceeded (`max_errors = None`, or at most `k` calls failed), then every node none of whose dependencies
